@@ -87,6 +87,22 @@ def _sum_case(vals, acc):
                          {'sum': [size, chunk, alg, seed]})
                 return
         acc.nontrivial('sum%r' % ((size, chunk),))
+        # the path given as pathlib.Path / bytes / a str subclass
+        import pathlib
+
+        class PathStr(str):
+            pass
+        for alt in (pathlib.Path(path), os.fsencode(path), PathStr(path)):
+            acc.counters['checksum_calls'] += 1
+            try:
+                g1 = fileutils.compute_file_checksum(alt, read_chunksize=chunk, algorithm='sha1')
+                g2 = fileutils.last_bytes(alt, 3)
+            except Exception as e:
+                g1 = g2 = 'raises ' + type(e).__name__
+            if g1 != hashlib.sha1(content).hexdigest() or g2 != (content[max(0, size - 3):], max(0, size - 3)):
+                acc.fail('path-type:%s' % type(alt).__name__, {'size': size, 'got': [g1, repr(g2)[:60]]},
+                         {'sum': [size, chunk, 'sha1', seed]})
+                return
         # default arguments
         if fileutils.compute_file_checksum(path) != hashlib.sha256(content).hexdigest():
             acc.fail('checksum-defaults', {'size': size}, {'sum': [size, 65536, 'sha256', seed]})
